@@ -177,7 +177,8 @@ Unary(kind, v) ==
                 ELSE IF MBitLen(v.f.m) + v.f.e > 96 THEN ErrP("Cast", v)       \* |x| >= 2^96
                 ELSE IF MBitLen(v.f.m) + v.f.e < -100 THEN OkA(VDec(ZZero, 0), "decTiny")  \* |x| < 2^-100
                 ELSE LET d == DecOfFloat(v.f) IN
-                     IF d.exact /\ MBitLen(v.f.m) <= 40 THEN Ok(VDec(d.n, d.sc))
+                     \* exact only when the exact decimal expansion is short: the conversion keeps about 15 significant digits
+                     IF d.exact /\ Len(MDigits(DStrip(d.n.m, d.sc, 0)[1])) <= 15 THEN Ok(VDec(d.n, d.sc))
                      ELSE OkA(VDec(d.n, d.sc), "dec15")   \* within 15 significant digits
            [] v.t = "Dec" -> Ok(v)
            [] v.t = "Str" -> LET d == ParseDecStr(v.cs) IN
